@@ -29,9 +29,6 @@ theorem refutes {ops : List Op} (h : Differs ops) : ¬ C18_full := fun hf => h (
 theorem C18_counterexample_delete_nonempty_bucket :
     Differs [.createBucket bka, .putObject bka kA [1] none {} none, .deleteBucket bka] := by decide
 
-/-- fs:head-missing-key-code -/
-theorem C18_counterexample_head_missing_key_code : Differs [.createBucket bka, .headObject bka kA] := by decide
-
 /-- fs:head-without-etag -/
 theorem C18_counterexample_head_without_etag :
     Differs [.createBucket bka, .putObject bka kA [1] none {} none, .headObject bka kA] := by decide
@@ -107,8 +104,9 @@ theorem C18_counterexample_complete_missing_part :
 /-! ## repaired: histories that were counterexamples before the repairs and on which the model now agrees with the store
 
 (1d0f501 put_object / create_multipart_upload require the bucket; b01fec8 put_object without metadata removes the old
-metadata file; ca1e912 copy onto itself keeps the object; b89afe2 ranged reads: covered for all ranges by
-`C18_get_refines_partial` and `C18_range_check`, the kernel cannot evaluate the decimal formatter of `Content-Range`) -/
+metadata file; ca1e912 copy onto itself keeps the object; d6f1a3c head_object tells a missing key from a missing bucket;
+b89afe2 ranged reads: covered for all ranges by `C18_get_refines_partial` and `C18_range_check`, the kernel cannot
+evaluate the decimal formatter of `Content-Range`) -/
 
 /-- answers agree on this history -/
 def Same (ops : List Op) : Prop := (run H0 0 {} ops).2 = (StoreSpec.run H0 {} ops).2
@@ -137,6 +135,13 @@ theorem C18_fixed_metadata_survives_delete :
 theorem C18_fixed_copy_onto_itself :
     Same [.createBucket bka, .putObject bka kA [1, 2] mdV {} none, .copyObject bka kA bka kA,
       .getObject bka kA none] := by decide
+
+/-- was fs:head-missing-key-code (the witness history of `corpus/fs.txt`): head_object of a missing key in an existing
+    bucket is `NoSuchKey` on both sides, of a key in a missing bucket `NoSuchBucket` on both sides -/
+theorem C18_fixed_head_missing_key_code :
+    Same [.createBucket bka, .headObject bka kA, .headObject [98, 107, 98] kA] ∧
+    (run H0 0 {} [.createBucket bka, .headObject bka kA, .headObject [98, 107, 98] kA]).2 =
+      [.ok, .err .NoSuchKey, .err .NoSuchBucket] := by decide
 
 /-- was fs:suffix-range-longer-than-object / fs:suffix-range-huge-panics: the model no longer fails or panics (the answer
     itself is compared by `C18_get_refines_partial`) -/
